@@ -746,7 +746,12 @@ func (g *decGen) chain() *v3listenerpb.FilterChain {
 
 func (g *decGen) listener(name string) *v3listenerpb.Listener {
 	l := &v3listenerpb.Listener{Name: name}
-	for i := 0; i < g.r.intn(4); i++ {
+	nChains := g.r.intn(4)
+	if g.r.chance(15) {
+		nChains = 4 + g.r.intn(6) // a gateway-sized listener: many chains, their order matters (the last one of a kind wins)
+		g.hit("listener.many-chains")
+	}
+	for i := 0; i < nChains; i++ {
 		l.FilterChains = append(l.FilterChains, g.chain())
 	}
 	if g.r.chance(30) {
